@@ -59,6 +59,10 @@ pub struct Case {
     pub extra_candidates: Vec<String>,
     /// wrap the map into an index with one section at this offset (K2 class if non-zero)
     pub index_offset: Option<(u32, u32)>,
+    /// further mappings at the generated position of an existing token (selected by the first
+    /// number), with a name of their own
+    #[serde(default)]
+    pub dups: Vec<(u16, Option<u8>)>,
 }
 
 fn pick<'a>(pool: &'a [&'a str], i: u8) -> &'a str {
@@ -169,6 +173,14 @@ fn build_program(c: &Case) -> Program {
     // distinct positions (keep the first), sorted
     tokens.sort_by_key(|t| (t.line, t.col));
     tokens.dedup_by_key(|t| (t.line, t.col));
+    for (sel, name) in &c.dups {
+        if tokens.is_empty() {
+            break;
+        }
+        let j = idx16(*sel, tokens.len());
+        let t = Tok { line: tokens[j].line, col: tokens[j].col, name: name.map(|i| pick(ORIG_NAMES, i).to_string()) };
+        tokens.insert(j + 1, t);
+    }
     Program { lines, tokens, ambiguous }
 }
 
@@ -225,13 +237,34 @@ fn ref_token_text(lines: &[String], line: u32, col: u32) -> Option<String> {
     Some(id)
 }
 
+/// Every answer the statement allows. The walk starts at the looked-up token: for an exact hit
+/// the first token at that position, otherwise any token of the group sharing the greatest
+/// position not after the query (C04) - one answer unless tokens share that position.
+fn ref_resolve_all(p: &Program, q: (u32, u32), name: &str) -> Vec<Option<String>> {
+    let pos: Vec<(u32, u32)> = p.tokens.iter().map(|t| (t.line, t.col)).collect();
+    let Some(first) = ref_lookup_index(&pos, q) else { return vec![None] };
+    let starts: Vec<usize> = if pos[first] == q { vec![first] } else { (0..pos.len()).filter(|k| pos[*k] == pos[first]).collect() };
+    let mut out: Vec<Option<String>> = vec![];
+    for t0 in starts {
+        let a = ref_resolve_from(p, t0, name).flatten();
+        if !out.contains(&a) {
+            out.push(a);
+        }
+    }
+    out
+}
+
 /// `Some(answer)` where answer is the (possibly absent) original name; `None` = nothing found.
 fn ref_resolve(p: &Program, q: (u32, u32), name: &str) -> Option<Option<String>> {
+    let pos: Vec<(u32, u32)> = p.tokens.iter().map(|t| (t.line, t.col)).collect();
+    let t0 = ref_lookup_index(&pos, q)?;
+    ref_resolve_from(p, t0, name)
+}
+
+fn ref_resolve_from(p: &Program, t0: usize, name: &str) -> Option<Option<String>> {
     if !ref_is_identifier(name) {
         return None;
     }
-    let pos: Vec<(u32, u32)> = p.tokens.iter().map(|t| (t.line, t.col)).collect();
-    let t0 = ref_lookup_index(&pos, q)?;
     for k in 0..128usize {
         if k > t0 {
             break;
@@ -285,10 +318,20 @@ fn build_map(p: &Program) -> SourceMap {
 }
 
 fn check(c: &Case, obs: &mut Obs) -> Verdict {
-    let p = build_program(c);
+    let mut p = build_program(c);
     let text = p.lines.join("\n");
     let sv = SourceView::new(text.clone().into());
     let sm = build_map(&p);
+    if !c.dups.is_empty() {
+        // tokens sharing a position come out in an order the constructor does not promise: the walk
+        // is defined on the map's own token order, so the model follows it (original line = model index)
+        let actual: Vec<Tok> = sm.tokens().map(|t| p.tokens[t.get_src_line() as usize].clone()).collect();
+        if actual.len() != p.tokens.len() || actual.windows(2).any(|w| (w[0].line, w[0].col) > (w[1].line, w[1].col)) {
+            return Verdict::Fail("the map built from the tokens has a different number of tokens or is not ordered".into());
+        }
+        p.tokens = actual;
+        obs.class("tokens-sharing-a-generated-position");
+    }
     // candidate names
     let mut cands: Vec<String> = vec!["function".into()];
     for line in &c.lines {
@@ -348,10 +391,11 @@ fn check(c: &Case, obs: &mut Obs) -> Verdict {
             if p.ambiguous {
                 continue; // a token column inside a surrogate pair: crash-freedom only
             }
+            let acceptable = ref_resolve_all(&p, *q, name);
             let want = ref_resolve(&p, *q, name).flatten();
-            if got != want || got2 != want {
+            if !acceptable.contains(&got) || got2 != got {
                 return Verdict::Fail(format!(
-                    "get_original_function_name({}, {}, {name:?}) = {got:?} (via DecodedMap: {got2:?}); the reference walk gives {want:?}. text={text:?} tokens={:?}",
+                    "get_original_function_name({}, {}, {name:?}) = {got:?} (via DecodedMap: {got2:?}); the reference walk gives {acceptable:?}. text={text:?} tokens={:?}",
                     q.0,
                     q.1,
                     p.tokens.iter().map(|t| (t.line, t.col, t.name.clone())).collect::<Vec<_>>()
@@ -387,7 +431,7 @@ fn check(c: &Case, obs: &mut Obs) -> Verdict {
                     Err(pn) => return Verdict::Fail(format!("SourceMapIndex::get_original_function_name{q:?} {name:?}: {pn}")),
                 };
                 if off == (0, 0) {
-                    if goti != want {
+                    if !acceptable.contains(&goti) {
                         return Verdict::Fail(format!("index (single section at the origin): get_original_function_name{q:?} {name:?} = {goti:?}, expected {want:?}"));
                     }
                 } else {
@@ -493,7 +537,18 @@ fn programs(_t: Tier) -> BoxedStrategy<Case> {
         vec(prop_oneof![proptest::sample::select(MIN_NAMES).prop_map(|s| s.to_string()), "[a-c$_]{1,3}".prop_map(|s| s)], 0..3),
         prop_oneof![6 => Just(None), 2 => Just(Some((0u32, 0u32))), 2 => (0u32..3, 0u32..9).prop_map(Some)],
     )
-        .prop_map(|(lines, extra, extra_candidates, index_offset)| Case { lines, extra, extra_candidates, index_offset })
+        .prop_map(|(lines, extra, extra_candidates, index_offset)| Case { lines, extra, extra_candidates, index_offset, dups: vec![] })
+        .boxed()
+}
+
+/// Programs whose maps have several mappings at one generated position, with names of their own.
+fn duplicate_positions(t: Tier) -> BoxedStrategy<Case> {
+    (programs(t), vec((any::<u16>(), proptest::option::weighted(0.85, 0u8..6)), 1..4))
+        .prop_map(|(mut c, dups)| {
+            c.dups = dups;
+            c.index_offset = None;
+            c
+        })
         .boxed()
 }
 
@@ -522,7 +577,7 @@ fn window(_t: Tier) -> BoxedStrategy<Case> {
                 second.push(call);
                 vec![first, second]
             };
-            Case { lines, extra: vec![], extra_candidates: vec![], index_offset: None }
+            Case { lines, extra: vec![], extra_candidates: vec![], index_offset: None, dups: vec![] }
         })
         .boxed()
 }
@@ -539,7 +594,7 @@ fn long_lines(_t: Tier) -> BoxedStrategy<Case> {
             tail.retain(|s| !matches!(s.piece, Piece::Filler(_)));
             line.append(&mut tail);
             line.push(call);
-            Case { lines: vec![line], extra: vec![], extra_candidates: vec![], index_offset: None }
+            Case { lines: vec![line], extra: vec![], extra_candidates: vec![], index_offset: None, dups: vec![] }
         })
         .boxed()
 }
@@ -548,6 +603,7 @@ fn subs() -> Vec<Sub> {
     vec![
         gen_sub("long_lines", long_lines, |t| t.pick(600, 12_000), check),
         gen_sub("programs", programs, |t| t.pick(6_000, 200_000), check),
+        gen_sub("duplicate_positions", duplicate_positions, |t| t.pick(3_000, 100_000), check),
         gen_sub("window_boundary", window, |t| t.pick(600, 12_000), check),
     ]
 }
